@@ -217,7 +217,16 @@ class Controller:
         """wait for and process messages from running processes; returns False on timeout"""
         rl = [self.lsock] + list(self.pending) + [p.sock for p in self.procs.values() if p.state not in ("dead", "execwait")]
         rl += [self.chan[k] for k in ("lcmd", "rcmd") if k in self.chan]
-        r, _, _ = select.select(rl, [], [], timeout)
+        # (poll, not select: descriptor numbers above 1023 must not be a problem of the controller)
+        po = select.poll()
+        byfd = {}
+        for x in rl:
+            fd_ = x if isinstance(x, int) else x.fileno()
+            if fd_ < 0:
+                continue
+            byfd[fd_] = x
+            po.register(fd_, select.POLLIN)
+        r = [byfd[fd_] for fd_, _ in po.poll(int(timeout * 1000))]
         if not r:
             return False
         for s in r:
